@@ -346,6 +346,9 @@ class Server:
                 if outer.mode == 'drop':
                     self._transport.abort()
                     raise RuntimeError('drop')
+                if outer.mode == 'accept-then-drop':
+                    # the acceptance goes out, then the peer ends the connection a moment later
+                    asyncio.get_running_loop().call_later(0.03, lambda: self._transport.abort() if self._transport else None)
                 return soup.LoginAccepted('sess', 1)
 
             async def on_unsequenced(self, msg):
@@ -724,7 +727,23 @@ def run_connect(server, sc):
     """`soup.connect` against a server that accepts / rejects / drops the connection / is not there"""
     from nasdaq_protocols import soup
     mode = sc['mode']
-    server.mode = {'accepted': 'accept', 'rejected': 'reject', 'peerClosed': 'drop', 'connRefused': 'accept'}[mode]
+    server.mode = {'accepted': 'accept', 'rejected': 'reject', 'peerClosed': 'drop', 'connRefused': 'accept',
+                   'acceptedThenClosed': 'accept-then-drop'}[mode]
+    unpatch = None
+    if mode == 'acceptedThenClosed':
+        # force the interleaving: the peer's disconnect is processed by the loop thread between "login returned" and "the
+        # blocking wrapper has installed its close callback" whenever these are two separate steps (the statement at which the
+        # wrapper is constructed is held for 0.25 s)
+        from nasdaq_protocols.soup import session as _ss
+        orig_init = _ss.SoupClientSessionSync.__attrs_post_init__
+
+        def slow_init(self):
+            time.sleep(0.25)
+            orig_init(self)
+        _ss.SoupClientSessionSync.__attrs_post_init__ = slow_init
+
+        def unpatch():
+            _ss.SoupClientSessionSync.__attrs_post_init__ = orig_init
     port = server.port
     if mode == 'connRefused':
         import socket
@@ -743,6 +762,8 @@ def run_connect(server, sc):
     t = threading.Thread(target=go, daemon=True)
     t.start()
     t.join(8)
+    if unpatch:
+        unpatch()
     time.sleep(0.05)
     execs = [x for x in threading.enumerate() if x not in before and x.name.startswith('sync-executor-') and x.is_alive()]
     res = {'id': sc.get('id'), 'connect': mode, 'returned': not t.is_alive(), 'raised': box.get('e'), 'executor_alive': bool(execs)}
@@ -1135,7 +1156,8 @@ def run(ctx):
         ctx.notes.append('C20: model driver unavailable — oracle only, on the fallback and corpus interleavings')
     for k, s in enumerate(scs):
         s['id'] = k
-    conn = [{'type': 'connect', 'mode': m, 'id': f'connect-{m}'} for m in ('accepted', 'rejected', 'peerClosed', 'connRefused')]
+    conn = [{'type': 'connect', 'mode': m, 'id': f'connect-{m}'} for m in ('accepted', 'rejected', 'peerClosed', 'connRefused',
+                                                                             'acceptedThenClosed')]
     nworkers = min(12, max(2, (os.cpu_count() or 4) - 2))
     pool = Pool(nworkers)
     payload = [{'id': s['id'], 'cfg': s['cfg'], 'labels': s['labels'], 'expect': s.get('expect'),
@@ -1200,7 +1222,7 @@ def run(ctx):
             ctx.violation(f"soup.connect raised {r['raised']} and left its executor thread running", rep)
         if not raised and (r.get('close_after') != {'ok': True} or r.get('executor_alive_after_close')):
             ctx.violation(f"close() after connect: {r.get('close_after')}, thread alive {r.get('executor_alive_after_close')}", rep)
-        if c['mode'] in model_conn:
+        if c['mode'] in model_conn and c['mode'] != 'acceptedThenClosed':
             got = f"ok raised={'1' if raised else '0'} alive={'1' if r['executor_alive'] else '0'}"
             if got != model_conn[c['mode']]:
                 ctx.disagree(f"connect {c['mode']}: model {model_conn[c['mode']]} vs implementation {got} ({r['raised']})", rep)
